@@ -1280,6 +1280,7 @@ func ruleAbandonedNotPublished(c *Ctx, rule string) {
 		// (b) every publishing call is conditional on shared state
 		for _, s := range sites {
 			gated := false
+			unlockedStep := ""
 			check := func(b *ssa.BasicBlock) {
 				for _, dc := range controlConds(b) {
 					if readsShared(dc.cond) {
@@ -1293,10 +1294,33 @@ func ruleAbandonedNotPublished(c *Ctx, rule string) {
 			for depth := 0; depth < 3 && !gated && f != nil; depth++ {
 				for _, cs := range c.P.Callers(f) {
 					check(cs.Instr.Block())
+					// the decision and the step form one critical section: a lock taken for the decision is still held
+					// when the step runs (released before, the timeout can fire between the two)
+					if gated {
+						locked, released := false, false
+						instrsOf(cs.Caller, func(i2 ssa.Instruction) {
+							c2, isCall := i2.(*ssa.Call)
+							if !isCall || !instrDominates(i2, cs.Instr) {
+								return
+							}
+							if callIsMethod(&c2.Call, "sync", "Mutex", "Lock") || callIsMethod(&c2.Call, "sync", "RWMutex", "Lock") {
+								locked = true
+							}
+							if callIsMethod(&c2.Call, "sync", "Mutex", "Unlock") || callIsMethod(&c2.Call, "sync", "RWMutex", "Unlock") {
+								released = true
+							}
+						})
+						if locked && released {
+							gated = false
+							unlockedStep = c.P.InstrPos(cs.Instr)
+						}
+					}
 				}
 				f = f.Parent()
 			}
-			if !gated {
+			if !gated && unlockedStep != "" {
+				bad = append(bad, c.P.ShortName(fn)+": the lock under which the decision is taken is released before the step runs ("+unlockedStep+"); the timeout can fire in between and the step still takes effect")
+			} else if !gated {
 				bad = append(bad, c.P.ShortName(fn)+": "+c.P.InstrPos(s.in)+" is executed whatever happened to the operation meanwhile")
 			}
 		}
